@@ -70,6 +70,15 @@ def record(c):
         return [dict(ev='raise', exc=f'generator: {type(ex).__name__}: {str(ex)[:80]}')]
 
 
+# Inputs on which the pinned tree violated the property before the repair cec1d93 (finding F6: Lanczos continued past an exhausted
+# Krylov space; about one in 10^3 runs of this regime): kept as fixed regression inputs, generated like every other case.
+_F6 = dict(nsweeps=1, numiter=2, maxD=3, qnums=True, complete=True, repeat=False, shift=False, basis=True)
+PINNED = [dict(_F6, alg='dmrg1', kind='xxz', L=6, real=True, seed=689189530),
+          dict(_F6, alg='dmrg1', kind='bose', L=6, real=False, seed=845033753),
+          dict(_F6, alg='dmrg1', kind='xxz', L=6, real=False, seed=1020005882),
+          dict(_F6, alg='dmrg2', kind='bose', L=5, real=True, seed=947054777)]
+
+
 def run(ctx):
     ptn = common.import_repo()
     rng = np.random.default_rng(ctx.seed * 47 + 10)
@@ -80,7 +89,8 @@ def run(ctx):
     ctx.assumptions += ['kernel contract: lowest Ritz value <= Rayleigh quotient of the start vector (observed per local problem)',
                         'mode-N bounds 1e-9 ||H|| (consistency 1e-8 ||H||, exact ground state 1e-7 ||H||)']
     sweep_models(ctx, ['dmrg1', 'dmrg2'])
-    cases = [ctx.replay['replay']['case']] if ctx.replay is not None else [gen_case(rng) for _ in range(ctx.pick(300, 3000))]
+    cases = [ctx.replay['replay']['case']] if ctx.replay is not None else [gen_case(rng) for _ in range(ctx.pick(300, 3000))] + \
+        [dict(c) for c in PINNED]
     traces = pmap(record, cases)
     for c, tr in zip(cases, traces):
         ens = [float.fromhex(r['en']) for r in tr if r.get('ev') == 'local' and r.get('en')]
